@@ -110,6 +110,12 @@ def main(tier):
                     # (class name only) the library found no route at all -- the pin is walled in by a touching shape or the other end lies in a
                     # buffered outline -- and drew the straight line from the centre of the shape instead
                     key += ':no-route-found:straight-line-from-the-shape-centre'
+                elif x['mode'] == 1 and any(len(c['raw']) == 2 and c['raw'][0][0] != c['raw'][1][0] and c['raw'][0][1] != c['raw'][1][1]
+                                            and any(e['t'] == 1 and any(z[0] == e['s'] and tuple(pt) == ((z[1] + z[3]) // 2, (z[2] + z[4]) // 2) for z in x['shapes'])
+                                                    for e, pt in ((c['src'], c['raw'][0]), (c['dst'], c['raw'][-1]))) for c in x['conns']):
+                    # (class name only) the same fallback when the class happens to have a pin at the shape centre: an orthogonal connector drawn as
+                    # one slanted line from the centre of its shape (no route was found) sits on that pin and takes it from its rightful user
+                    key += ':no-route-found:straight-line-from-the-shape-centre'
             if t == 'checkpoints-not-visited-in-order':
                 def on_inside_pin(e):
                     return e['t'] == 1 and any(q['s'] == e['s'] and q['c'] == e['c'] and strictly_inside(q) for q in x['pins'])
